@@ -127,26 +127,40 @@ def r5_cells(text, fields, recv='self'):
 
 
 def r5_alias(text, name, path, field):
-    """R5 for a cell reached through a local alias: `let NAME = <expr>.FIELD();` (an accessor returning the
-    &Cell) is erased and every `NAME.` becomes `PATH.FIELD.`; the ordinary R5 method rewrites then apply with
-    receiver PATH.  The cell is thereby treated as owned by PATH (aliasing through other handles dropped)."""
+    """R5 for a cell reached through an accessor: `let X = <expr>.FIELD();` (an accessor returning the &Cell; X is
+    whatever the local is called) is erased and every `X.` becomes `PATH.FIELD.`; a direct use `<expr>.FIELD().get()`
+    becomes `PATH.FIELD.get()`; the ordinary R5 method rewrites then apply with receiver PATH.  The cell is thereby
+    treated as owned by PATH (aliasing through other handles dropped)."""
     fired = 0
-    m = mask(text)
-    hits = list(re.finditer(r'let\s+%s\s*=\s*[^;]*?\.%s\(\)\s*;' % (re.escape(name), re.escape(field)), m))
-    for mo in reversed(hits):
+    while True:
+        m = mask(text)
+        mo = re.search(r'let\s+([A-Za-z_]\w*)\s*=\s*[^;]*?\.\s*%s\(\)\s*;' % re.escape(field), m)
+        if not mo:
+            break
+        local = mo.group(1)
         text = _del_stmt(text, mo.start(), mo.end())
         fired += 1
-    if not hits:
-        return text, 0
-    m = mask(text)
-    out, last = [], 0
-    for mo in re.finditer(r'(?<![\w.])%s\.' % re.escape(name), m):
-        out.append(text[last:mo.start()])
-        out.append('%s.%s.' % (path, field))
-        last = mo.end()
+        m = mask(text)
+        out, last = [], 0
+        for mu in re.finditer(r'(?<![\w.])%s\s*\.' % re.escape(local), m):
+            out.append(text[last:mu.start()])
+            out.append('%s.%s.' % (path, field))
+            last = mu.end()
+            fired += 1
+        out.append(text[last:])
+        text = ''.join(out)
+    # direct uses: <receiver chain>.FIELD()
+    while True:
+        m = mask(text)
+        mo = re.search(r'\.\s*%s\(\)' % re.escape(field), m)
+        if not mo:
+            break
+        op = m.index('(', mo.start())
+        a, b = _call_extent(m, mo.start(), op)
+        text = text[:a] + '%s.%s' % (path, field) + text[b:]
         fired += 1
-    out.append(text[last:])
-    text = ''.join(out)
+    if not fired:
+        return text, 0
     text, n = r5_cells(text, [field], path)
     return text, fired + n
 
